@@ -379,6 +379,10 @@ def run(ctx):
                      info["cls"].where)
     else:
         r4.ok(f"src/gwf/backends/local.py::Scheduler.{info['tidgen']}", "ids carry a pool-instance discriminator", info["cls"].where)
+    # "success or no record falls back to the file-based decision"; live and failure states are shown as such: the scheduler's decision table (C02.R1)
+    r5 = ctx.rule("R5", "what the commands show for each job state: live states as submitted/running, failure and cancellation as such, success or no record decided by the files", min_instances=2)
+    from .c02 import rule_decision_table      # (C02 imports C08's rules: the shared rule is called directly)
+    rule_decision_table(ctx, r5)
 
 
 def _normalised_id(idx, m, expr):
